@@ -20,6 +20,10 @@ CHECKS = {
    text="Three workloads: (seq) tape-generated histories of next/send, play, pause, resume, stop, reset on routines with scripted bodies (yield numbers/other values, return, raise, YieldAndReset, AlwaysYield, StopStream, nested routines, self-directed pause/stop/reset) checked op by op against a sequential state-machine model incl. current-thread/parent-chain restoration; (sync) real sc3 in the simulated RT world under faults with routines waiting on Conditions/FlowVars while the driver, user threads and other routines signal, unhang and set tests/values - every continuation must be justified, happen exactly once, not be missing at quiescence, and no routine may resume before its yielded delay; (ctl) pause/resume/stop applied concurrently to playing routines - transition table at the linearisation point, no body step while Paused/Done. Exploration, not proof.",
    note="Concurrent operations are linearised by holding the re-entrant main lock around each harness operation; seq cases involve no scheduler.",
    tech="deterministic simulation with fault injection (concurrent op histories on simulated clocks vs state-machine/condition models; sequential model-based histories)"),
+ 'C20': dict(
+   text="1-4 builder threads build drawn multisets of a 14-function corpus concurrently (some builds failing: error in the graph function, failed input check, writer refusing the name, KeyboardInterrupt), interleaved with SynthDesc reads that share the build lock/global context and with tape-driven heap perturbation, executed by real sc3 (RT and NRT mode) under the kernel with LINE-level pre-emption (sys.monitoring) inside sc3/synth/* and sc3/base/main.py; every successful build must equal the pristine bytes from a separate fresh process, failing builds raise to their caller only, no residue (global context, lock, unit generators created outside) when nothing builds, later sequential builds equal pristine, no builder parked forever; plus the whole corpus built twice in fresh interpreters under 3 (quick) / 8 (thorough) PYTHONHASHSEED values with ASLR on, in both modes. Exploration, not proof.",
+   note="Pre-emption at LINE events only; violations caused by address-dependent iteration order are confirmed by repeated replay instead of by digest equality.",
+   tech="deterministic simulation with fault injection (line-level pre-emptive scheduling of concurrent/failing builds via sys.monitoring; fresh-interpreter hash-seed sweep)"),
  'C18': dict(
    text="Real sc3 receive path (UDP receive threads on two simulated ports -> _osclib decoder -> SystemClock dispatch -> dispatchers/matchers -> responders) in the simulated RT world under scheduling/timing faults, driven by tape-generated histories of responder creation, enable/disable/free/one_shot/function replacement, CmdPeriod, SystemAction/ServerAction/NotificationCenter add/remove/run interleaved with datagrams from simulated remote endpoints: valid messages and nested bundles with literal and pattern addresses sharing prefixes, and F5-mutated datagrams (truncation, bit flips, tampered element lengths incl. negative, junk, empty, trailing bytes, duplicates). Oracles: responder-registry model, textbook OSC pattern matcher (both readings, disagreements counted as ambiguous), strict independent decoder, callback arguments, receiver liveness incl. a deterministic LINE-event hang detector, probe message after every faulty datagram. Exploration, not proof.",
    note="Registry operations are issued at quiescent points (sequentially consistent with dispatches); datagrams the library accepts but the strict decoder rejects are counted (lenient-accept), not judged; order across the two default dispatchers is unconstrained.",
